@@ -525,6 +525,49 @@ def run(F, rep, tier):
             rep.ok('R6.7', fn, 'shifts the BigInt')
         else:
             rep.viol('R6.7', fn + '|machine-shift', 'shift has a machine-word path (%s %s): bits shifted out of an i64 are lost silently' % (other, ['bin ' + s[2][1] for s in shifts]), b.loc(0))
+    # ---------------- R6.8
+    rep.rule('R6.8', 'the truncating remainder (Rem on NNum / NInt / BigInt / signed machine integers: sign follows the dividend) is used outside '
+             'the operator implementations only at reviewed sites where the sign cannot matter; everything else in the library that means '
+             '"modulo" goes through mod_floor (parity, divisibility and digit extraction on negative numbers)')
+    from .census import Census
+    C6 = Census(F)
+    REM_TABLE = [
+        (r'^<Times as core::Builtin>::destructure$', 2, 'only tested for zero (divisibility)'),
+        (r'^builtin\(str_radix\)$', 1, 'digit extraction on the magnitude: the sign was split off before the loop'),
+        (r'^builtin\(%\)$', 1, 'this is the % operator itself'),
+        (r'^nint::NInt::lazy_is_prime$', 4, 'only tested for zero, on candidates >= 2'),
+        (r'^nnum::lazy_factorize(::\{closure#\d+\})?$', 1, 'only tested for zero'),
+        (r'^<streams::Cycle as core::Stream>::pythonic_index_isize$', 1, 'applied to cursor + rem_euclid(n): both non-negative'),
+    ]
+    perr = {}
+    nrem = 0
+    for p_ in sorted(F.bodies_raw):
+        if '::promoted' in p_:
+            continue
+        b_ = F.body(p_)
+        fk = C6.fn_key(p_)
+        if re.search(r'as std::ops::(Rem|RemAssign)', p_):
+            continue            # the operator layers themselves (R6.1-R6.3, R7.x decide those)
+        for c in b_.calls:
+            if (c.callee.get('tr') in ('std::ops::Rem', 'std::ops::RemAssign') or re.search(r'::rem(_assign)?$', c.target)) and \
+                    re.search(r'nnum::NNum|nint::NInt|num::BigInt|BigInt', c.target):
+                nrem += 1
+                perr.setdefault(fk, []).append(c.loc())
+        for bb in b_.reach:
+            for s_ in b_.stmts(bb):
+                if s_[0] == 'a' and s_[2][0] == 'bin' and s_[2][1] == 'Rem':
+                    o = s_[2][2]
+                    ty = b_.locals[o[1][0]] if o[0] in ('c', 'm') and len(o[1]) == 1 else (o[3] if o[0] == 'k' else '?')
+                    if str(ty).startswith('i'):
+                        nrem += 1
+                        perr.setdefault(fk, []).append(b_.loc(bb))
+    for fk, locs in sorted(perr.items()):
+        ent = [e for e in REM_TABLE if re.search(e[0], fk)]
+        if ent and len(locs) <= ent[0][1]:
+            rep.ok('R6.8', '%s x%d' % (fk, len(locs)), 'reviewed: ' + ent[0][2])
+        else:
+            rep.viol('R6.8', '%s|truncating-rem' % fk, '%s uses the truncating remainder %d time(s) (%d reviewed): for a negative dividend the result is negative or zero, so tests like `x %% 2 == 1` and digit extraction are wrong exactly on negative numbers; the library\'s modulo is mod_floor' % (fk, len(locs), ent[0][1] if ent else 0), locs[-1])
+    rep.floor('R6.8', 'truncating remainder sites outside the operator layers', nrem, 8)
     rep.undecided += ['exactness of BigInt arithmetic, Pow, gcd, sqrt, shifts (num-bigint)', 'lazy_is_prime / lazy_factorize correctness',
                       'floor/truncate identities as equations']
     return META
